@@ -1032,6 +1032,8 @@ class Engine:
             else:
                 # all processes have run past the interval
                 self.global_time = end_time
+                for quiet in quiet_paths:
+                    self.front[quiet] = empty_front(self.global_time)
 
             if force_complete and self.global_time == end_time:
                 force_complete = False
